@@ -14,6 +14,15 @@ from .elfread import Elf
 MARK = 0x5A5A000000000000
 
 
+def symname(n):
+    """name numbers: n < 1000 plain, 1000+n = __wrap_<n>, 2000+n = __real_<n> (see Model/Wrap.lean)."""
+    if n >= 2000 and n < 3000:
+        return f"__real_sym_{n - 2000}"
+    if n >= 1000 and n < 2000:
+        return f"__wrap_sym_{n - 1000}"
+    return f"sym_{n}"
+
+
 def optional(f):
     return (f["kind"] == "ar" and not f.get("whole")) or (f["kind"] == "so" and f.get("as_needed", False))
 
@@ -40,7 +49,7 @@ def render_file(k, f, is_main):
     for e in f["entries"]:
         if e[0] == "D":
             _, n, s, size, comdat = e
-            name = f"sym_{n}"
+            name = symname(n)
             if s == "c":
                 out.append(f"    .comm {name},{size},8\n")
                 continue
@@ -59,7 +68,7 @@ def render_file(k, f, is_main):
                 out.append(f"    .size {name}, 8\n")
         else:
             _, n, weak = e
-            name = f"sym_{n}"
+            name = symname(n)
             if weak:
                 out.append(f"    .weak {name}\n")
             out.append(f"    .data\n    .balign 8\n    .globl ref_{k}_{n}\nref_{k}_{n}:\n    .quad {name}\n")
@@ -150,7 +159,7 @@ def observe(out_path, files):
     defs = {}
     names = sorted({en[1] for f in files for en in f["entries"]})
     for n in names:
-        y = syms.get(f"sym_{n}")
+        y = syms.get(symname(n))
         if y is None:
             defs[n] = "undef"
         else:
@@ -167,7 +176,7 @@ def classify_ptr(e, syms, p, n):
         return f"bad-pointer-0x{p:x}"
     if v >> 48 == MARK >> 48:
         return str((v >> 16) & 0xFFFF)
-    y = syms.get(f"sym_{n}")
+    y = syms.get(symname(n))
     if y is not None and y.value == p and v == 0:
         return f"c{y.size}"
     return f"unknown-0x{v:x}"
